@@ -363,6 +363,10 @@ func (r *Run) Regress() {
 		if v.OK {
 			continue
 		}
+		if v.Sig == "harness" || strings.HasPrefix(v.Sig, "harness:") {
+			r.Inconclusive("harness error while replaying %s: %s", path, firstLines(v.Msg, 3))
+			continue
+		}
 		r.mu.Lock()
 		k, isKnown := r.known[v.Sig]
 		if isKnown {
